@@ -50,7 +50,12 @@ def ref_tokenize(s, allow_empty, acceptable):
                 final = ''
                 end = n
             else:
-                return None, None, 'body-byte-outside-0x20-0x3f'
+                # a character that is neither a parameter/intermediate byte nor a final byte (another ESC, a C0
+                # control, DEL, non-ASCII) ends the attempt: nothing was recognised, the characters stay text and the
+                # offending character is looked at again (it may begin the next sequence)
+                out.extend(s[i:j])
+                i = j
+                continue
             body = s[i + 2:j]
             ok = (final != '' or allow_empty) and (acceptable is None or final in acceptable)
             if ok:
